@@ -758,6 +758,8 @@ func famHash(dir string, seed int64, tier string) {
 		}
 	}
 	apiTreeEditsStayPrivate(repT, "C12")
+	apiFindRefs(repT)
+	apiFindRefs(repR)
 	{
 		// a tree that was iterated, then edited below the root, then iterated again shows the edit
 		base := []sb.Token{tokK(sb.KindArray), tokI(1), tokK(sb.KindArray), tokI(2), tokI(3), tokK(sb.KindArrayEnd), tokK(sb.KindArrayEnd)}
